@@ -627,6 +627,14 @@ CORPUS = [
     ('ws-between-inline-mixed', D([P(T(u'\n  '), ['span', None, [T(u'k1z')]], T(u'\r\n'), ['span', None, [T(u'k2z')]], T(u'\t'), T(u'k3z'), T(u' '),
                                    ['bmref', u'b', u'k4z'], T(u'\n\n'), ['span', None, [T(u'k5z')]], T(u'\n')),
                                  ['h', 2, None, [T(u'k6z'), T(u'\n'), ['span', None, [T(u'k7z')]], T(u'\n\t\n'), T(u'k8z')]]])),
+    ('list-header', D([['list', None, [[P(T(u'k2z'))], [P(T(u'k3z')), ['list', None, [[P(T(u'k5z'))]], [P(T(u'k4z'))]]]], [P(T(u'k1z')), ['h', 2, None, [T(u'k1bz')]]]],
+                       ['table', u't', None, [[None, None]], [[None, [['cell', {'rs': None, 'cs': None, 'style': None},
+                           [['list', None, [[P(T(u'k7z'))]], [P(T(u'k6z'))]]]]]]], 0]])),
+    ('table-header-rows', D([['table', u't', None, [[None, 2]], [[None, [['cell', {'rs': None, 'cs': None, 'rep': 2, 'style': None}, [P(T(u'k1z'))]]], 2],
+                                                                  [None, [['cell', {'rs': None, 'cs': None, 'style': None}, [P(T(u'k2z'))]]], None]], 1]])),
+    ('frame-image-and-textbox', D([P(T(u'k1z'), ['frame', 'as-char', None, ['both', [P(T(u'k2z'))]]], T(u'k3z'), ['s', 0], T(u'k4z'), ['spb'], T(u'k5z'),
+                                     ['a', u'#x', [['span', None, [T(u'k6z'), ['tab'], T(u'k7z'), ['br']]]]], ['s', 40], T(u'k8z')),
+                                   ['spb'], ['h', 11, None, [['a', u'http://x/', [T(u'k9z')]]]], ['h', 25, None, [T(u'k10z')]]])),
     ('moin-note-second-paragraph', D([P(T(u'k1z'), ['note', 'footnote', u'1', [P(T(u'k2z')), P(T(u'k3z'))]], T(u'k4z'))])),
     ('moin-table-in-cell', D([['table', u't', None, [[None, None]], [[None, [['cell', {'rs': None, 'cs': None, 'style': None},
         [['table', u'u', None, [[None, None]], [[None, [['cell', {'rs': None, 'cs': None, 'style': None}, [P(T(u'k1z'))]]]]]]]]]]]]])),
